@@ -1038,8 +1038,13 @@ class _CallMixin:
             # function table dispatch:  parsers.get(key, default)(...)
             tbl = self.heap.get(f.args[0].oid) if isinstance(f.args[0], Ref) else None
             if isinstance(tbl, DictObj) and tbl.concrete():
-                res = self.call_value(f.args[2], args, kwargs, node) if not isinstance(f.args[2], Const) \
-                    else Op("call", f.args[2], *args)
+                none_of = and_(*[compare("ne", f.args[1], k) for k, v, _, _ in self.dedup(tbl)])
+                self.guard.append(none_of)
+                try:
+                    res = (self.call_value(f.args[2], args, kwargs, node) if self.feasible() else Undef()) \
+                        if not isinstance(f.args[2], Const) else Op("call", f.args[2], *args)
+                finally:
+                    self.guard.pop()
                 for k, v, _, _ in reversed(self.dedup(tbl)):
                     c = compare("eq", f.args[1], k)
                     self.guard.append(c)
